@@ -64,6 +64,16 @@ CHECKS = {
    design_ref='5 (C17)',
    note=TB + ' Bound: per colour <= 9 queens, <= 10 rooks/bishops/knights, <= 8 pawns.',
    technique='symbolic execution of rustc MIR into z3 integer terms (exact integer mode) + bit-vector popcount lemmas; native replay'),
+ 'C15': dict(
+   category='other',
+   text=('(a) UCICommand::new with parse_go / parse_option / parse_position is executed from MIR on token lists of every length 0..8 (quick) / 0..12 (thorough) '
+         'whose tokens are symbolic words (any keyword, any decimal number up to 2^136, or junk); every reachable panic site (index, slice range, assert!, unwrap, overflow) '
+         'is an obligation that z3 must refute. (b) one iteration of Uci::uci_loop from a fresh session (with and without a previous search) on an arbitrary line of 0..9 tokens and on end of input: '
+         'no panic in execute_command, isready => readyok, quit leaves the loop, no other line does, and end of input must not start another iteration. '
+         'Level other: the claim is bounded by the line length.'),
+   design_ref='5 (C15), 3.3',
+   note=TB + ' Strings are abstract tokens (only comparisons with literals, parse::<uN>, emptiness are modelled); from_fen/find_move/make_move/thread::spawn are opaque in (b); FEN arguments assumed valid as the property says.',
+   technique='symbolic execution of rustc MIR into z3 over abstract token strings; panic-site obligations; bounded line length; native replay of the concretised line / closed-stdin run'),
 }
 NA = {
  'C10': 'quantifies over OS-thread interleavings (relaxed AtomicBool + JoinHandle::is_finished); MIR has no thread semantics and Kani does not model concurrency - outside solver-based checking of the real code (DESIGN.md 6)',
